@@ -335,6 +335,7 @@ def c13(chk, thorough):
         irscan.cross_check(chk, prog, sorted(prog.units))
     chk.floor('S1-3.partition', 10)
     chk.floor('S4.ownership', 7)
+    chk.floor('S6.slice-processed', 7)
     chk.floor('T3.create-join', 10)
     chk.floor('S5.condensed', 3)
 
